@@ -19,19 +19,19 @@ use crate::Ctx;
 use serde_json::json;
 
 #[derive(Clone)]
-struct TyD {
+pub struct TyD {
     /// Aiken type text
-    ty: String,
+    pub ty: String,
     /// constant expressions of that type
-    mk: Vec<String>,
+    pub mk: Vec<String>,
     /// Int-valued observation of `v` (a variable name)
-    obs: fn(&TyD, &str) -> String,
+    pub obs: fn(&TyD, &str) -> String,
     /// element descriptor for containers
-    elem: Option<Box<TyD>>,
-    short: String,
+    pub elem: Option<Box<TyD>>,
+    pub short: String,
 }
 
-const PRELUDE: &str = r#"use aiken/builtin
+pub const PRELUDE: &str = r#"use aiken/builtin
 
 pub opaque type Wrap {
   inner: Int,
@@ -136,7 +136,7 @@ fn containers(e: &TyD) -> Vec<TyD> {
     ]
 }
 
-fn universe() -> Vec<TyD> {
+pub fn universe() -> Vec<TyD> {
     let s = scalars();
     let mut u = s.clone();
     for e in &s {
